@@ -634,7 +634,7 @@ class GibbsTempo(BaseAPIClass):
             step, state = self._backend_instance.initialise()
             self._init_dynamics()
             for ii, state in enumerate(self._backend_instance.data):
-                self._dynamics.add(self._time(ii), state)
+                self._dynamics.add(self._time(ii), state.T)
             #  dynamics now has three entries including initial state
 
         num_step = max(
@@ -646,7 +646,7 @@ class GibbsTempo(BaseAPIClass):
             for i in range(num_step):
                 prog_bar.update(i + 2)
                 step, state = self._backend_instance.compute_step()
-                self._dynamics.add(self._time(step+1), state)
+                self._dynamics.add(self._time(step+1), state.T)
             prog_bar.update(num_step + 2)
 
         return self._dynamics
